@@ -29,11 +29,11 @@ GROUPS = {
 PLAN = {
     "quick": dict(
         gs=[(g, "d") for g in range(14)] + [(g, "f") for g in (1, 2, 3, 9)],
-        n=10, offsets=6, hmax={}, chunk=90,
+        n=10, offsets=6, hmax={}, chunk=125,
     ),
     "thorough": dict(
         gs=[(g, "d") for g in range(16)] + [(g, "f") for g in range(14)],
-        n=48, offsets=10, hmax={14: 48, 15: 400}, chunk=150,
+        n=48, offsets=10, hmax={14: 48, 15: 400}, chunk=400,
     ),
 }
 
